@@ -103,7 +103,8 @@ def c04(run):
     cfgs = tbl_cfgs(["", "-C", "-Cf", "-CF", "-Cfe", "-CFe", "-Cfa"], inter=(None, False)) + tbl_cfgs(["", "-Cm"], inter=(None, False), reject=(True,))
     cfgs += [{"flavour": "c99", "tbl": t} for t in ("", "-Cf", "-CF", "-Cfe")] + [{"flavour": "c99", "interactive": False, "reject": True},
                                                                                    {"flavour": "c99", "array": True, "yymore": True}, {"flavour": "cxx"}, {"flavour": "cxx", "tbl": "-Cf", "interactive": False},
-             {"flavour": "c99", "userread": False, "extra_opts": "always-interactive"}, {"userread": False, "extra_opts": "always-interactive"}]
+             {"flavour": "c99", "userread": False, "extra_opts": "always-interactive"}, {"userread": False, "extra_opts": "always-interactive"},
+             {"flavour": "cxx", "userread": False}]
     cases = units.product_unit(run, fd, srcs, cfgs, tag="product", san=True)
 
     def nul_inputs(c, rng, n):
@@ -266,13 +267,14 @@ def c08(run):
     rng = random.Random(run.seed)
     q = run.tier == "quick"
     mc = units.model_async(run, invariants=('Conservation',), properties=())
-    srcs = fam(run, profiles=("lit", "ops", "ccl", "dot", "nul", "trail", "mix"), core=3 if q else 6, rnd=40)
+    srcs = fam(run, profiles=("lit", "ops", "ccl", "dot", "nul", "high", "trail", "mix"), core=3 if q else 6, rnd=40)
     cfgs = []
     for arr in (False, True):
         for fl in ("nr", "r"):
             cfgs.append({"flavour": fl, "array": arr, "yymore": True})
     cfgs.append({"tbl": "-Cf", "yymore": True})
-    cfgs += [{"flavour": "c99", "yymore": True}, {"flavour": "c99", "yymore": True, "array": True}, {"flavour": "cxx", "yymore": True}]
+    cfgs += [{"flavour": "c99", "yymore": True}, {"flavour": "c99", "yymore": True, "array": True}, {"flavour": "cxx", "yymore": True},
+             {"flavour": "cxx", "yymore": True, "userread": False}]
     cases = units.product_unit(run, fd, srcs, cfgs, tag="product", san=True)
     def arrayless_probe(sub):
         src = rulesets.handwritten()[0]
@@ -373,7 +375,8 @@ def c10(run):
     q = run.tier == "quick"
     srcs = fam(run, profiles=("sc3", "sc", "lit", "trail", "anch", "mix"), core=3 if q else 6, rnd=40)
     cfgs = [{"userwrap": True}, {"userwrap": True, "flavour": "r"}, {"userwrap": False}, {"userwrap": True, "tbl": "-Cf"},
-            {"userwrap": True, "reject": True, "interactive": False}, {"userwrap": True, "flavour": "c99"}, {"userwrap": True, "flavour": "cxx"}]
+            {"userwrap": True, "reject": True, "interactive": False}, {"userwrap": True, "flavour": "c99"}, {"userwrap": True, "flavour": "cxx"},
+            {"userwrap": True, "flavour": "cxx", "userread": False}, {"userwrap": True, "userread": False}]
     cases = units.product_unit(run, fd, srcs, cfgs, tag="product", san=True)
     ok = [c for c in cases if c.status == "ok"]
     units.trace_unit(run, ok, rng, per_case=16 if q else 32, tag="eof", job_filter=buffer_jobs("eof"), scripts=False)
@@ -399,7 +402,7 @@ def c03(run):
     fd = build.build_flex()
     rng = random.Random(run.seed)
     q = run.tier == "quick"
-    srcs = fam(run, profiles=("lit", "ops", "rep", "ccl", "dot", "trail", "anch", "sc", "mix"), core=3 if q else 6, rnd=40)
+    srcs = fam(run, profiles=("lit", "ops", "rep", "ccl", "dot", "trail", "anch", "sc", "high", "mix"), core=3 if q else 6, rnd=40)
     # (a) no over-read / schedule independence with the harness's own YY_INPUT: every Read event must be
     #     needed (strictread), for interactive and batch scanners, buffer sizes 1..64 and every read-size pattern
     cfgs = [{"interactive": True}, {"interactive": False}, {"tbl": "-Cf"}, {"tbl": "-CF"},
